@@ -151,56 +151,64 @@ func checkShortCircuit(c *Check) {
 		if op.Name != "BIN_AND" && op.Name != "BIN_OR" {
 			continue
 		}
-		node := genNode("ast.BinaryExpr", opVal(op), []string{"lhs", "rhs"}, []*DT{boolT, boolT})
 		fi := L.Fn("src/compiler.(*compiler).VisitBinaryExpr")
 		problems := []string{}
 		n := 0
-		in.RunAll(16, func() {
-			cobj := mk()
-			in.CallFunc(fi, cobj, []Val{node})
-			n++
-			var lhsBlock, rhsBlock Val
-			var brTrue, brFalse Val
-			var brCond *IRVal
-			var lhsV Val
-			phiOK := false
-			for _, e := range in.Events {
-				switch e.Kind {
-				case "evaluate:lhs":
-					lhsBlock, lhsV = e.Data[0], e.Data[1]
-				case "evaluate:rhs":
-					rhsBlock = e.Data[0]
-				case "term:NewCondBr":
-					if brCond == nil && len(e.Data) >= 4 {
-						brCond, _ = e.Data[1].(*IRVal)
-						brTrue, brFalse = e.Data[2], e.Data[3]
-					}
-				case "phi-incoming":
-					if len(e.Data) == 2 && e.Data[0] == lhsV {
-						if t, known := eqVal(e.Data[1], lhsBlock); known && t {
-							phiOK = true
+		for _, multi := range []bool{false, true} {
+			node := genNode("ast.BinaryExpr", opVal(op), []string{"lhs", "rhs"}, []*DT{boolT, boolT})
+			node.get("Lhs").(*Obj).set("multiblock", boolV(multi))
+			node.get("Rhs").(*Obj).set("multiblock", boolV(multi))
+			in.RunAll(16, func() {
+				cobj := mk()
+				in.CallFunc(fi, cobj, []Val{node})
+				n++
+				problems = append(problems, phiPredecessorProblems(in)...)
+				var lhsBlock, rhsBlock Val
+				var brTrue, brFalse Val
+				var brCond *IRVal
+				var lhsV Val
+				phiOK := false
+				for _, e := range in.Events {
+					switch e.Kind {
+					case "evaluate:lhs":
+						lhsBlock, lhsV = e.Data[0], e.Data[1]
+						if len(e.Data) > 3 {
+							lhsBlock = e.Data[3] // the block the first operand's code ends in
+						}
+					case "evaluate:rhs":
+						rhsBlock = e.Data[0]
+					case "term:NewCondBr":
+						if brCond == nil && len(e.Data) >= 4 {
+							brCond, _ = e.Data[1].(*IRVal)
+							brTrue, brFalse = e.Data[2], e.Data[3]
+						}
+					case "phi-incoming":
+						if len(e.Data) == 2 && e.Data[0] == lhsV {
+							if t, known := eqVal(e.Data[1], lhsBlock); known && t {
+								phiOK = true
+							}
 						}
 					}
 				}
-			}
-			want := brTrue
-			if op.Name == "BIN_OR" {
-				want = brFalse
-			}
-			if brCond == nil || strings.Join(brCond.prov(), "+") != "lhs" {
-				problems = append(problems, "no conditional branch on the first operand")
-				return
-			}
-			if t, known := eqVal(rhsBlock, want); !known || !t {
-				problems = append(problems, "the second operand is not evaluated in the branch target that the first operand selects ("+map[string]string{"BIN_AND": "true", "BIN_OR": "false"}[op.Name]+" successor)")
-			}
-			if t, known := eqVal(rhsBlock, lhsBlock); known && t {
-				problems = append(problems, "both operands are evaluated in the same block (no short circuit)")
-			}
-			if !phiOK {
-				problems = append(problems, "the phi does not take the first operand from the block it was evaluated in")
-			}
-		})
+				want := brTrue
+				if op.Name == "BIN_OR" {
+					want = brFalse
+				}
+				if brCond == nil || strings.Join(brCond.prov(), "+") != "lhs" {
+					problems = append(problems, "no conditional branch on the first operand")
+					return
+				}
+				if t, known := eqVal(rhsBlock, want); !known || !t {
+					problems = append(problems, "the second operand is not evaluated in the branch target that the first operand selects ("+map[string]string{"BIN_AND": "true", "BIN_OR": "false"}[op.Name]+" successor)")
+				}
+				if t, known := eqVal(rhsBlock, lhsBlock); known && t {
+					problems = append(problems, "both operands are evaluated in the same block (no short circuit)")
+				}
+				if !phiOK {
+					problems = append(problems, "the phi does not take the first operand from the block it was evaluated in")
+				}
+			})
+		}
 		key := "compiler.(*compiler).VisitBinaryExpr|" + op.Name
 		r.Decide(len(problems) == 0 && n > 0, key, fi.Decl.Pos(), "short-circuit shape confirmed", strings.Join(uniq(problems), "; "))
 	}
@@ -210,40 +218,46 @@ func checkShortCircuit(c *Check) {
 			continue
 		}
 		z := &DT{Kind: "ZAHL"}
-		node := genNode("ast.TernaryExpr", opVal(op), []string{"lhs", "mid", "rhs"}, []*DT{z, boolT, z})
 		fi := L.Fn("src/compiler.(*compiler).VisitTernaryExpr")
 		problems := []string{}
 		n := 0
-		in.RunAll(32, func() {
-			cobj := mk()
-			in.CallFunc(fi, cobj, []Val{node})
-			n++
-			var lhsBlock, rhsBlock, brTrue, brFalse Val
-			var brCond *IRVal
-			for _, e := range in.Events {
-				switch e.Kind {
-				case "evaluate:lhs":
-					lhsBlock = e.Data[0]
-				case "evaluate:rhs":
-					rhsBlock = e.Data[0]
-				case "term:NewCondBr":
-					if brCond == nil && len(e.Data) >= 4 {
-						brCond, _ = e.Data[1].(*IRVal)
-						brTrue, brFalse = e.Data[2], e.Data[3]
+		for _, multi := range []bool{false, true} {
+			node := genNode("ast.TernaryExpr", opVal(op), []string{"lhs", "mid", "rhs"}, []*DT{z, boolT, z})
+			for _, f := range []string{"Lhs", "Mid", "Rhs"} {
+				node.get(f).(*Obj).set("multiblock", boolV(multi))
+			}
+			in.RunAll(32, func() {
+				cobj := mk()
+				in.CallFunc(fi, cobj, []Val{node})
+				n++
+				problems = append(problems, phiPredecessorProblems(in)...)
+				var lhsBlock, rhsBlock, brTrue, brFalse Val
+				var brCond *IRVal
+				for _, e := range in.Events {
+					switch e.Kind {
+					case "evaluate:lhs":
+						lhsBlock = e.Data[0]
+					case "evaluate:rhs":
+						rhsBlock = e.Data[0]
+					case "term:NewCondBr":
+						if brCond == nil && len(e.Data) >= 4 {
+							brCond, _ = e.Data[1].(*IRVal)
+							brTrue, brFalse = e.Data[2], e.Data[3]
+						}
 					}
 				}
-			}
-			if brCond == nil || strings.Join(brCond.prov(), "+") != "mid" {
-				problems = append(problems, "no conditional branch on the condition operand")
-				return
-			}
-			if t, k := eqVal(lhsBlock, brTrue); !k || !t {
-				problems = append(problems, "the value for a true condition is not evaluated in the true successor")
-			}
-			if t, k := eqVal(rhsBlock, brFalse); !k || !t {
-				problems = append(problems, "the value for a false condition is not evaluated in the false successor")
-			}
-		})
+				if brCond == nil || strings.Join(brCond.prov(), "+") != "mid" {
+					problems = append(problems, "no conditional branch on the condition operand")
+					return
+				}
+				if t, k := eqVal(lhsBlock, brTrue); !k || !t {
+					problems = append(problems, "the value for a true condition is not evaluated in the true successor")
+				}
+				if t, k := eqVal(rhsBlock, brFalse); !k || !t {
+					problems = append(problems, "the value for a false condition is not evaluated in the false successor")
+				}
+			})
+		}
 		r.Decide(len(problems) == 0 && n > 0, "compiler.(*compiler).VisitTernaryExpr|TER_FALLS", fi.Decl.Pos(), "only the selected operand is evaluated", strings.Join(uniq(problems), "; "))
 	}
 }
@@ -353,4 +367,57 @@ func checkCountingLoop(c *Check) {
 		})
 		r.Decide(len(problems) == 0 && n > 0, "compiler.(*compiler).VisitForStmt|counter "+d.String(), fi.Decl.Pos(), "loop header shape confirmed", strings.Join(uniq(problems), "; "))
 	}
+}
+
+// phiPredecessorProblems: every phi must name, for each incoming value, a block that branches to the phi's block, and name every
+// such block exactly once (LLVM: "PHI node entries do not match predecessors").
+func phiPredecessorProblems(in *Interp) []string {
+	succ := map[*Obj][]*Obj{}
+	for _, e := range in.Events {
+		if strings.HasPrefix(e.Kind, "term:") {
+			b, _ := e.Data[0].(*Obj)
+			if b == nil {
+				continue
+			}
+			succ[b] = nil
+			for _, a := range e.Data[1:] {
+				if o, ok := a.(*Obj); ok && o.Kind == "ir.Block" {
+					succ[b] = append(succ[b], o)
+				}
+			}
+		}
+	}
+	var bad []string
+	for _, e := range in.Events {
+		if e.Kind != "phi" {
+			continue
+		}
+		blk, _ := e.Data[0].(*Obj)
+		if blk == nil {
+			continue
+		}
+		preds := map[*Obj]bool{}
+		for b, ss := range succ {
+			for _, s := range ss {
+				if s == blk {
+					preds[b] = true
+				}
+			}
+		}
+		named := map[*Obj]int{}
+		for i := 2; i < len(e.Data); i += 2 {
+			if p, ok := e.Data[i].(*Obj); ok {
+				named[p]++
+				if !preds[p] {
+					bad = append(bad, in.L.Pos(e.Pos)+": the phi names a block that does not branch to the phi's block (the operand's code ended in another block): LLVM rejects the module or miscompiles it")
+				}
+			}
+		}
+		for p := range preds {
+			if named[p] == 0 {
+				bad = append(bad, in.L.Pos(e.Pos)+": a block that branches to the phi's block has no incoming value in the phi")
+			}
+		}
+	}
+	return uniq(bad)
 }
